@@ -33,6 +33,7 @@ void sym_inputs(void)
 #ifdef REPLAY
 #include "replay_inputs.inc"
 #else
+  SYM_FEED();
   SYM_ARR(in); SYM(inlen); SYM(errpos);
 #endif
 }
